@@ -123,7 +123,7 @@ def run(ctx, res):
         sc1 = list(scripts_upto(fam, allm, 1))
         for i in range(0, len(sc1), 400):
             tasks.append((fam, allm, False, sc1[i:i + 400]))
-    accs = core.pool_map(_task, ctx.rot(tasks))
+    accs = core.task_map(_task, ctx.rot(tasks))
     tot = sweep.merge(accs)
     cov = res.coverage
     cov["states"] = tot["n"]
@@ -153,3 +153,7 @@ def replay(case):
     i = case["input"]
     why, run = judge(case["family"], i["all"], i["no_colors"], i["script"])
     return bool(why), why or "as the model predicts"
+
+
+def replay_task(case):
+    return core.replay_func_task(case)
